@@ -62,7 +62,7 @@ def describe(tier):
             "character; EVERY base64-alphabet character at EVERY position of a hex-only, an upper-case hex-only and a letters-only 24-character text); 12 other spellings of an escaped line break (zero padding, lower-case hex, no semicolon) mixed with the documented ones in every gap (forward oracle); every assignment of %d line-break spellings to the %d gaps of a 7-group blob; 6 call forms x every payload length; hex runs of "
             "9/10/11/16 pairs x lower/upper/mixed x digit-only prefixes of 0..24 characters x embeddings; FromHexString call forms (plain, [System.Convert]:: prefix, lower case); PowerShell byte arrays of 499..640 elements x 5 element spellings (decimal, 0x hex, 0X HEX, zero-padded, mixed) x 4 separators x 3 embeddings. "
             "Forward direction: every node labelled encoding.base64 / decoded.hexadecimal / encoding.hexidecimal / cipher.xor* / cipher.multibyte_xor "
-            "met in these runs, in xor runs (keys 0..999 x 4 spellings x 3 carriers; key-guessing form with repeating keys of length 1..4) and in every "
+            "met in these runs, in xor runs (keys 0..999 x 4 spellings x 3 carriers; key-guessing form with repeating keys of length 1..4; the same form with 4095..70000 (thorough ..200003) decoded bytes x key lengths 1,2,3,5,7 given to find_powershell_bytes; xortool.dexor against text XOR repeating key for sizes 0..70000 (thorough ..262145) around 64 / 4096 / 65536 x key lengths 1..9) and in every "
             "scan of the b64hex/mix scan-level families is recomputed with own RFC 4648 / hex decoders from the text it replaced; an xor child must equal "
             "parent XOR key. states = distinct inputs, transitions = nodes recomputed, traces = scans/calls checked. Non-trivial = input on which a decoding node was expected or found."
             % (40 if tier == "quick" else 64, len(BREAKS), 6)
@@ -74,6 +74,17 @@ def describe(tier):
     }
 
 
+# decoded sizes of the key-guessing xor form, around 4096 and 65536 (a key stream built per block must keep its phase across blocks)
+XORBIG = {"quick": (4095, 4097, 65535, 65537, 70000), "thorough": (4095, 4096, 4097, 65535, 65536, 65537, 70000, 131071, 131075, 200003)}
+
+
+def xorbig_data(n, klen):
+    plain = (b"This program cannot be run in DOS mode. " * (n // 40 + 1))[:n]
+    key = bytes([0x41 + i * 7 for i in range(klen)])
+    enc = bytes(b ^ key[i % klen] for i, b in enumerate(plain))
+    return b"$e = " + b",".join(b"%d" % b for b in enc) + b"; $d = $e -bxor $key"
+
+
 def plan(tier, seed):
     maxlen = 40 if tier == "quick" else 64
     units = [("bare", tier, n) for n in range(0, maxlen + 1)]
@@ -83,6 +94,7 @@ def plan(tier, seed):
     units += [("calls", tier, ci) for ci in range(len(CALLS))]
     units += [("hex", case) for case in ("lower", "upper", "mixed")] + [("buffer",)]
     units += [("xor", c) for c in range(3)] + [("xorguess",)] + [("psbytes", i) for i in range(4)]
+    units += [("xorbig", n, klen) for n in XORBIG[tier] for klen in (1, 2, 3, 5, 7)] + [("dexor", tier)]
     units += [("stream", u) for u in streams.plan(tier, fams=STREAM_FAMS)]
     units += core.interp_axis([("bounds",), ("late",), ("hex", "mixed"), ("xorguess",), ("psbytes", 0)])
     return units
@@ -491,6 +503,41 @@ def run_unit(unit, rec):
                 rec.mark("states", data, True)
                 scan_and_check(rec, data, {"kind": "xor", "data": data})
         rec.sample({"family": "xor-key-guess", "last": data[-40:]})
+    elif kind == "xorbig":
+        _, n, klen = unit
+        from multidecoder.decoders import powershell as mdps
+        data = xorbig_data(n, klen)
+        rec.mark("states", ("xorbig", n, klen), True)
+        rec.count("evaluations")
+        w = {"kind": "xorbig", "n": n, "klen": klen}
+        ok, hits = rec.guard("C13.total", w, n, mdps.find_powershell_bytes, data, limit=120)
+        if ok:
+            rec.count("traces")
+            big = [h for h in hits if len(h.value) == n]
+            if big and any(c.obfuscation.startswith("cipher.") for c in big[0].children):
+                rec.mark("nontrivial", 0, True)
+            for h in hits:
+                forward(rec, h, data[h.start:h.end], w, n, searched=data)
+        rec.sample({"family": "xor-key-guess-large", "decoded_bytes": n, "key_length": klen})
+    elif kind == "dexor":
+        from multidecoder import xortool
+        sizes = (0, 1, 2, 63, 64, 65, 4095, 4096, 4097, 65535, 65536, 65537, 70000) + ((131071, 131073, 262145) if unit[1] == "thorough" else ())
+        for n in sizes:
+            text = bytes((i * 37 + (i >> 8)) & 0xFF for i in range(n))
+            for klen in range(1, 10):
+                key = bytes([0x11 * k + 3 for k in range(klen)])
+                rec.count("evaluations")
+                rec.mark("states", ("dexor", n, klen), True)
+                w = {"kind": "dexor", "n": n, "klen": klen, "tier": unit[1]}
+                ok, got = rec.guard("C13.total", w, n, xortool.dexor, text, key)
+                if ok:
+                    rec.count("traces")
+                    rec.count("transitions")
+                    if n:
+                        rec.mark("nontrivial", 0, True)
+                    if got != bytes(b ^ key[i % klen] for i, b in enumerate(text)):
+                        rec.violation("C13.xor.value", "dexor", w, f"dexor of {n} bytes with a key of length {klen} is not text XOR the repeating key", n)
+        rec.sample({"family": "dexor", "sizes": list(sizes), "key_lengths": "1..9"})
     elif kind == "stream":
         streams.run_unit(unit[1], rec, stream_monitor, repeat=2)
 
@@ -515,6 +562,12 @@ def replay(w, rec):
         return
     if k == "buffer":
         run_unit(("buffer",), rec)
+        return
+    if k == "xorbig":
+        run_unit(("xorbig", w["n"], w["klen"]), rec)
+        return
+    if k == "dexor":
+        run_unit(("dexor", w.get("tier", "quick")), rec)
         return
     if k == "psbytes":
         run_unit(("psbytes", [b",", b", ", b",\n", b",  \t"].index(w["sep"])), rec)
